@@ -41,8 +41,8 @@ FLAVOURS = {
     "shim": dict(cxx="g++", flags=["-std=c++14", "-fext-numeric-literals", "-O2", "-g", "-w", "-fPIC", "-DNDEBUG",
                                    "-D%s=1" % GUARD, "-DINOVESA_ALLOW_PS_RESET=1"]),
     "shimsan": dict(cxx="g++", flags=["-std=c++14", "-fext-numeric-literals", "-O1", "-g", "-w", "-fPIC",
-                                      "-fsanitize=address,undefined", "-fno-omit-frame-pointer",
-                                      "-D%s=1" % GUARD, "-DINOVESA_ALLOW_PS_RESET=1"],
+                                      "-fsanitize=address,undefined,float-cast-overflow", "-fno-sanitize-recover=undefined,float-cast-overflow",
+                                      "-fno-omit-frame-pointer", "-D%s=1" % GUARD, "-DINOVESA_ALLOW_PS_RESET=1"],
                     ldflags=["-fsanitize=address,undefined"]),
     "fuzz": dict(cxx="clang++", flags=["-std=c++14", "-O1", "-g", "-w", "-fno-omit-frame-pointer",
                                        "-fsanitize=fuzzer-no-link,address,undefined",
